@@ -3,6 +3,7 @@ from core import strip, is_field, key_str, order_ge, key_mentions
 from facts import AnalysisBroken
 from rules import (writer_kind, field_load, through_local, nodeset, callpred, field_of, ev, Unevaluable, forced_edges, atom_from, is_load_of,
                    is_cas_on, is_full_fence, one, some, base_var)
+from props import c01
 import stale
 
 EXPLANATION = (
@@ -616,6 +617,9 @@ def check_owner(ctx, P):
 
 def run(ctx):
     P = ctx.prog()
+    c01.core_dependency(ctx, P, "core.dep", (),
+                        "the run queues' owners (one manager per kernel thread, scheduled through a fresh manager pointer)",
+                        'two kernel threads acting as owner of one deque push and pop concurrently: an entry is dropped or handed out twice')
     check_pop(ctx, P)
     check_steal(ctx, P)
     check_push(ctx, P)
